@@ -1231,6 +1231,35 @@ theorem impl_starLabels_swap (a b : Geom) (c : Pt) (star : List Bundle) :
     starLabels b a c (star.map swapB) = (starLabels a b c star).map (·.map Label.swap) :=
   starLabels_swap a b c star
 
+/-- [T] **anything × Point, columns Interior and Boundary** — the mirror image of `relateImpl_point_rows`,
+obtained through the transpose law: for every geometry `A` (edge ends of non-zero length) whose envelope
+meets the point, the Boundary column of `relate(A, Point p)` is `F` and the Interior column has a single
+`0`, in the row of the position `q` recorded for `p` w.r.t. `A`. -/
+theorem relateImpl_point_cols_partial (p : Pt) (a : Geom) (hnz : EndsNonZero (.point p) a)
+    (henv : envelopesMeet (.point p) a = true) {m : IM} (h : relateImpl? a (.point p) = some m) :
+    ∃ q : Pos, ∀ X Y, Y ≠ .outside → m.get X Y = if Y = .inside ∧ q = X then .zero else .empty := by
+  rw [relateImpl_transpose_partial (.point p) a hnz] at h
+  cases h' : relateImpl? (.point p) a with
+  | none => rw [h'] at h; cases h
+  | some m' =>
+    rw [h'] at h
+    simp only [Option.map_some, Option.some.injEq] at h
+    subst h
+    have hg : relateGraph Arith.exact (.point p) a = some m' := by
+      unfold relateImpl? relateImplWith at h'
+      rw [henv, if_pos rfl] at h'
+      exact h'
+    obtain ⟨_, _, q, _, _, _, hrows⟩ := relateImpl_point_rows Arith.exact p a hg
+    refine ⟨q, fun X Y hY => ?_⟩
+    rw [transpose_get, hrows Y X hY]
+
+/-- the point (2, 0) on the boundary of a triangle -/
+example : ∃ q : Pos, ∀ X Y, Y ≠ .outside →
+    (⟨.empty, .empty, .two, .zero, .empty, .one, .empty, .empty, .two⟩ : IM).get X Y =
+      if Y = .inside ∧ q = X then .zero else .empty :=
+  relateImpl_point_cols_partial ⟨2, 0⟩ (.triangle ⟨0, 0⟩ ⟨4, 0⟩ ⟨0, 4⟩) (endsNonZero_of_B (by decide +kernel))
+    (by decide +kernel) (by decide +kernel)
+
 end Impl
 
 end Geo.Proofs.C01
